@@ -61,6 +61,12 @@ Theorem c03_funnel_no_spurious_foul : forall sc o verdict cleanup,
   exit_nonzero verdict = true \/ exit_nonzero cleanup = true \/ exists x, exit_nonzero (comp_err o x) = true.
 Proof. exact funnel_no_spurious_foul. Qed.
 
+(** Within a component, the results of concurrent commands are combined
+    without loss, in any completion order. *)
+Theorem c03_collect_errors_keeps_failures : forall rs,
+  exit_nonzero (collect_errors rs) = existsb exit_nonzero rs.
+Proof. exact collect_errors_keeps_failures. Qed.
+
 (** The full statement "every component error reaches the exit status" is
     false of the faithful model: an error whose LAST cause is a cancellation is
     taken for a cancellation and dropped when its component is not the first
